@@ -44,8 +44,9 @@ Next == /\ ~done /\ done' = TRUE
         /\ \E last \in {iv \in Ivs : Valid(iv)} \cup {<<>>} : ivs' = IF last = <<>> THEN ivs ELSE Append(ivs, last)
         /\ pat' \in Pats
         /\ IF Mode = "inter"
-           THEN /\ k' \in 1..5
-                /\ LET cfg == CHOOSE c \in InterCfgs : c = [newtype |-> IF k' % 2 = 0 THEN <<>> ELSE T_intron, mergeAttrs |-> k' <= 3, numeric |-> k' = 2,
+           THEN /\ k' \in 1..6
+                /\ LET cfg == IF k' = 6 THEN [newtype |-> <<>>, typeGiven |-> TRUE, mergeAttrs |-> TRUE, numeric |-> FALSE, update |-> <<>>]      \* new_featuretype=""
+                              ELSE CHOOSE c \in InterCfgs : c = [newtype |-> IF k' % 2 = 0 THEN <<>> ELSE T_intron, mergeAttrs |-> k' <= 3, numeric |-> k' = 2,
                                                            update |-> IF k' \in {3, 5} THEN <<<<<<110>>, <<<<122>>>>>>>> ELSE <<>>] IN
                    (Hash(ivs', pat', k') % PrintMod # 0) \/ PrintT(ToJson([feats |-> Fs(ivs', pat'), cfg |-> cfg, exp |-> Inter_Decl(Fs(ivs', pat'), cfg)]))
            ELSE /\ k' \in 1..Len(CritSets)
@@ -53,7 +54,8 @@ Next == /\ ~done /\ done' = TRUE
                    PrintT(ToJson([feats |-> Fs(ivs', pat'), crits |-> CritSets[k'], exp |-> OutView(Merge_Alg2(Fs(ivs', pat'), CritSets[k'], {}).out),
                                   expdef |-> OutView(Merge_Alg2(Fs(ivs', pat'), DefaultCrits, {}).out)]))
 F == Fs(ivs, pat)
-ICfg == [newtype |-> IF k % 2 = 0 THEN <<>> ELSE T_intron, mergeAttrs |-> k <= 3, numeric |-> k = 2, update |-> IF k \in {3, 5} THEN <<<<<<110>>, <<<<122>>>>>>>> ELSE <<>>]   \* k = 5: update_attributes WITHOUT merge_attributes
+ICfg == IF k = 6 THEN [newtype |-> <<>>, typeGiven |-> TRUE, mergeAttrs |-> TRUE, numeric |-> FALSE, update |-> <<>>] ELSE
+        [newtype |-> IF k % 2 = 0 THEN <<>> ELSE T_intron, mergeAttrs |-> k <= 3, numeric |-> k = 2, update |-> IF k \in {3, 5} THEN <<<<<<110>>, <<<<122>>>>>>>> ELSE <<>>]   \* k = 5: update_attributes WITHOUT merge_attributes
 InvInter == (done /\ Mode = "inter") => Inter_Alg(F, ICfg) = Inter_Decl(F, ICfg) /\ NMinusOne(F, ICfg)
 MOut == Merge_Alg2(F, CritSets[k], {}).out
 InvPartition == (done /\ Mode = "merge") => PartitionOK(F, MOut)
